@@ -213,22 +213,26 @@ theorem cause_is_error (c : Cause) (cd : Bool) :
     ((causeTable c cd).1 = 1 ∨ (causeTable c cd).1 = 4 ∨ (causeTable c cd).1 = 5 ∨ (causeTable c cd).1 = 6) := by
   cases c <;> cases cd <;> decide
 
-/-- Where the pointer is fixed it designates the field in question: the hop pointer is the offset
-of the current hop field, which lies inside the SCION header; likewise the info pointer; the two
-address pointers are the offsets of the destination and source ISD-AS. -/
-theorem pointer_spec (ah ni nh ci ch : Nat) (hh : ch < nh) (hi : ci < ni) :
-    pointerOf .hop ah ni ci ch = cmnHdrLen + ah + (metaLen + infoLen * ni + hopLen * ch) ∧
-    pointerOf .hop ah ni ci ch + hopLen ≤ cmnHdrLen + ah + pathLen ni nh ∧
-    pointerOf .info ah ni ci ch = cmnHdrLen + ah + (metaLen + infoLen * ci) ∧
-    pointerOf .info ah ni ci ch + infoLen ≤ cmnHdrLen + ah + metaLen + infoLen * ni ∧
-    pointerOf .cmnHdr ah ni ci ch = Scion.Gen.Scmp.CmnHdrLen ∧
-    pointerOf .srcIA ah ni ci ch = Scion.Gen.Scmp.CmnHdrLen + Scion.Gen.Scmp.IABytes ∧
-    pointerOf .zero ah ni ci ch = 0 := by
+/-- Where the pointer is fixed it designates the field in question: the hop pointer is the byte
+offset **in the offending packet** of the current hop field — behind the common header, the address
+header, for EPIC packets the 16 bytes of EPIC metadata, the meta line and the info fields — and the
+field lies inside the SCION header; likewise the info pointer; the two address pointers are the
+offsets of the destination and source ISD-AS. -/
+theorem pointer_spec (ah ni nh ci ch : Nat) (epic : Bool) (hh : ch < nh) (hi : ci < ni) :
+    pointerOf .hop ah ni ci ch epic =
+      cmnHdrLen + ah + (if epic then 16 else 0) + (metaLen + infoLen * ni + hopLen * ch) ∧
+    pointerOf .hop ah ni ci ch epic + hopLen ≤ cmnHdrLen + ah + (if epic then 16 else 0) + pathLen ni nh ∧
+    pointerOf .info ah ni ci ch epic = cmnHdrLen + ah + (if epic then 16 else 0) + (metaLen + infoLen * ci) ∧
+    pointerOf .info ah ni ci ch epic + infoLen ≤ cmnHdrLen + ah + (if epic then 16 else 0) + metaLen + infoLen * ni ∧
+    pointerOf .cmnHdr ah ni ci ch epic = Scion.Gen.Scmp.CmnHdrLen ∧
+    pointerOf .srcIA ah ni ci ch epic = Scion.Gen.Scmp.CmnHdrLen + Scion.Gen.Scmp.IABytes ∧
+    pointerOf .zero ah ni ci ch epic = 0 ∧ epicMetadataLen = Scion.Gen.Scmp.EpicMetadataLen := by
   have h1 : 12 * ch + 12 ≤ 12 * nh := by omega
   have h2 : 8 * ci + 8 ≤ 8 * ni := by omega
-  simp only [pointerOf, hopPointer, infoPointer, pathLen, cmnHdrLen, metaLen, infoLen, hopLen, iaBytes,
-    Scion.Gen.Scmp.CmnHdrLen, Scion.Gen.Scmp.IABytes]
-  exact ⟨by omega, by omega, by omega, by omega, trivial, trivial, trivial⟩
+  cases epic <;>
+  · simp only [pointerOf, hopPointer, infoPointer, pathOffset, epicMetadataLen, pathLen, cmnHdrLen, metaLen,
+      infoLen, hopLen, iaBytes, Scion.Gen.Scmp.CmnHdrLen, Scion.Gen.Scmp.IABytes, Scion.Gen.Scmp.EpicMetadataLen]
+    refine ⟨by simp; omega, by simp; omega, by simp; omega, by simp; omega, trivial, trivial, trivial, trivial⟩
 
 /-- the emitted type and code are the requested ones; a ParameterProblem carries the requested
 pointer -/
